@@ -407,7 +407,7 @@ fn classify(want: &[(u64, Ev)], got: &[(u64, Ev)], op: &TimedOp) -> String {
 }
 
 pub fn timeouts(ctx: &Ctx) -> Report {
-    let n = ctx.n(4_000, 800_000);
+    let n = ctx.n(100_000, 200_000_000);
     par_cases(ctx, "timeouts", n, ctx.secs(30, 600), |i, rng, rep| run_case(i, rng, rep, false))
 }
 
